@@ -4,3 +4,5 @@ import RoProofs.Ops.Basic
 import RoProofs.Ops.FilterSpecs
 import RoProofs.Ops.TransformSpecs
 import RoProofs.Ops.AggregateSpecs
+import RoProofs.MultiB.Core
+import RoProofs.MultiB.BufferWhen
